@@ -111,6 +111,7 @@ func runC03(c *core.Ctx) {
 	c.Rule("R3", "normalisation of the incoming descriptor dominates the merge loop", 1)
 	c.Rule("R4", "stores outside the LWW loops and every use of the clock parameter are control-dependent on localCAS; the merge's helper cone reads no clock (gossip merges are a function of the operands)", 6)
 	c.Rule("R5", "one merge path: Merge is a pure delegation to the analysed merge function, and the KV store hands the decoded incoming value to Merge untouched", 3)
+	c.Rule("R7", "every received update reaches the merge: each receive path calls the store's merge function directly, and what it accepted is what is re-gossiped (shared with C06.R3)", 5)
 	c.Rule("R6", "what is merged is what was received and what is sent is what is stored: queued updates are consumed by their key's worker only, push/pull encodes the stored value afresh (shared with C06.R10, C04.R6)", 3)
 	fns := mergeFns(c, "R1")
 	covered := map[string]bool{}
@@ -800,6 +801,7 @@ func c03SinglePath(c *core.Ctx, fns map[string]*an.Fn) {
 	if ml := c.Prog.Pkg("kv/memberlist"); ml != nil {
 		c06QueuesAs(c, ml, "R6")
 		c04LocalState(c, "R6")
+		c.As("R3", "R7", func() { c06Notify(c, ml) })
 	}
 }
 
